@@ -53,11 +53,11 @@ Proof.
 Qed.
 
 (* ... and the code after its wait loop returns the no-peers error *)
-Lemma send_finish_no_peers : forall s t c x m,
+Lemma send_finish_no_peers : forall s t c e x m,
   aget c (ctxs s) = Some x -> c_sendMsg x = Some (t, m) -> c_closed x = false -> c_fnp x = true -> no_pipes s = true ->
-  In (ORet t (RErr ENoPeers)) (out (send_finish s t c)).
+  In (ORet t (RErr ENoPeers)) (out (send_finish s t c e)).
 Proof.
-  intros s t c x m Hx Hm Hc Hf Hn. unfold send_finish. rewrite Hx, Hm, N.eqb_refl.
+  intros s t c e x m Hx Hm Hc Hf Hn. unfold send_finish. rewrite Hx, Hm, N.eqb_refl.
   destruct (cancel_send_ctx s c x Hx) as [x' [Hx' [Em [Ec Ef]]]]. rewrite Hx'.
   cbn [emit out]. left.
   rewrite Ec, Hc, Ef, Hf.
@@ -254,7 +254,7 @@ Lemma last_pipe_leaves_parked_calls : forall s p pp,
   (forall c x, aget c (ctxs s) = Some x ->
      In c (woken s') /\
      (forall t e, send_waits s' t c e = false) /\
-     (forall t m, c_sendMsg x = Some (t, m) -> c_closed x = false -> In (ORet t (RErr ENoPeers)) (out (send_finish s' t c))) /\
+     (forall t m, c_sendMsg x = Some (t, m) -> c_closed x = false -> forall e, In (ORet t (RErr ENoPeers)) (out (send_finish s' t c e))) /\
      (forall id, id <> 0 -> recv_waits s' c id = false) /\
      (forall fixed t id, c_closed x = false -> In (ORet t (RErr ENoPeers)) (out (recv_finish fixed s' t c id false)))).
 Proof.
@@ -267,7 +267,7 @@ Proof.
   assert (F' : c_fnp x' = true) by (rewrite K1; eapply Hfnp; exact Hin).
   split; [exact Hw|]. split; [|split; [|split]].
   - intros t e. apply (send_waits_no_peers _ t c e x' Hx' F' N').
-  - intros t m Hm Hcl. apply (send_finish_no_peers _ t c x' m Hx'); [congruence|congruence|exact F'|exact N'].
+  - intros t m Hm Hcl e. apply (send_finish_no_peers _ t c e x' m Hx'); [congruence|congruence|exact F'|exact N'].
   - intros id Hid. unfold recv_waits. rewrite Hx', R0. destruct (0 =? id) eqn:E; [apply N.eqb_eq in E; congruence|reflexivity].
   - intros fixed t id Hcl. apply (recv_finish_no_peers fixed _ t c id x' Hx'); [exact M0|congruence|exact F'|exact N'].
 Qed.
@@ -285,3 +285,39 @@ Lemma np_witness_trace :
    ([ORet 4 (RErr ENoPeers); ORet 5 (RErr ENoPeers)], []);
    ([ORet 6 (RErr ENoPeers)], []); ([ORet 7 (RErr ENoPeers)], [])].
 Proof. vm_compute. reflexivity. Qed.
+
+(* --- the repaired SendMsg: whatever cancels the request (a Recv deadline, another Send, Close) also ends the wait of a
+   Send that was still queued --- *)
+Lemma cancel_send_unqueued : forall s c x', aget c (ctxs (cancel_send s c)) = Some x' -> c_queued x' = false.
+Proof.
+  intros s c x'. unfold cancel_send. destruct (aget c (ctxs s)) as [x|] eqn:Hx; [|congruence].
+  destruct (c_queued x) eqn:Q.
+  - cbn [upd_sendQ set_ctx upd_ctxs ctxs]. rewrite aget_aset_same. intro H. inversion H. reflexivity.
+  - rewrite Hx. intro H. inversion H. subst. exact Q.
+Qed.
+
+Lemma cancel_unqueued : forall s c x', aget c (ctxs (cancel s c)) = Some x' -> c_queued x' = false.
+Proof.
+  intros s c x'. unfold cancel.
+  destruct (aget c (ctxs (cancel_send s c))) as [x1|] eqn:H1.
+  - pose proof (cancel_send_unqueued s c x1 H1) as Q.
+    cbn [wake set_ctx upd_ctxs ctxs]. rewrite aget_aset_same. intro H. inversion H. cbn. exact Q.
+  - rewrite H1. discriminate.
+Qed.
+
+Theorem send_waits_after_cancel : forall s t c e, send_waits (cancel s c) t c e = false.
+Proof.
+  intros s t c e. unfold send_waits. destruct (aget c (ctxs (cancel s c))) as [x'|] eqn:H; [|reflexivity].
+  rewrite (cancel_unqueued s c x' H). rewrite Bool.andb_false_r. reflexivity.
+Qed.
+
+(* ... and its finishing code then reports the cancellation (unless the context was closed / lost its last peer, or the
+   Send's own deadline is what fired) *)
+Lemma send_finish_canceled : forall s t c x m,
+  aget c (ctxs s) = Some x -> c_sendMsg x = Some (t, m) -> c_closed x = false -> c_fnp x = false ->
+  In (ORet t (RErr ECanceled)) (out (send_finish s t c false)).
+Proof.
+  intros s t c x m Hx Hm Hc Hf. unfold send_finish. rewrite Hx, Hm, N.eqb_refl.
+  destruct (cancel_send_ctx s c x Hx) as [x' [Hx' [Em [Ec Ef]]]]. rewrite Hx'.
+  cbn [emit out]. left. rewrite Ec, Hc, Ef, Hf. reflexivity.
+Qed.
